@@ -14,3 +14,10 @@ Theorem c12_countmin_constants :
   zN Gen.GenCountMin.PREAMBLE_LONGS_SHORT = 2 /\ zN Gen.GenCountMin.SERIAL_VERSION = 1 /\
   zN Gen.GenCodec.FAMILY_COUNTMIN_ID = 18 /\ zN Gen.GenCountMin.FLAGS_IS_EMPTY = 1 /\ zN Gen.GenCountMin.LONG_SIZE_BYTES = 8.
 Proof. exact layout_constants. Qed.
+
+(* non-vacuity: a well-formed 2 x 3 u8 sketch; its image is the documented 72 bytes and decodes to its state *)
+Example c12_countmin_example :
+  let s := mkCm 2 3 255 7 8 [5; 0; 3; 0; 7; 1] in
+  length (cm_serialize s) = 72%nat /\
+  spec_decode (cm_serialize s) = Some (mkAbs 3 2 7 8 [5; 0; 3; 0; 7; 1]).
+Proof. split; vm_compute; reflexivity. Qed.
